@@ -77,12 +77,8 @@ def _solve_bruteforce(D, all_solutions, valid, spin, value):
     """
     if not D:
         return 0, ({} if not all_solutions else [{}])
-    elif () in D:
-        offset = D.pop(())
-        if not D:
-            D[()] = offset
-            return offset, ({} if not all_solutions else [{}])
-        D[()] = offset
+    elif len(D) == 1 and () in D:
+        return D[()], ({} if not all_solutions else [{}])
 
     # if D is a Matrix object or QUBO, PUBO, etc, then these are defined
     try:
